@@ -248,7 +248,10 @@ theorem vmCall_spec {w : World} {tx : Tx} {snd rcv : Copy} {isFD : Bool} {base :
     obtain ⟨hr1, hr2, hr3⟩ := hr
     split at h
     · subst h; exact ⟨⟨rfl, hr1, rfl, hr2, rfl, rfl, rfl, by simp, by simp⟩, by simp⟩
-    · subst h; exact ⟨⟨rfl, hr1, rfl, hr2, rfl, rfl, rfl, by simp, by simp⟩, by simp⟩
+    · -- system error / timeout after the script's writes (or a VM error on an uncovered transfer)
+      split at h
+      · subst h; exact ⟨⟨rfl, hr1, rfl, hr2, rfl, rfl, rfl, by simp, by simp⟩, by simp⟩
+      · subst h; exact ⟨⟨rfl, hr1, rfl, hr2, rfl, rfl, rfl, by simp, by simp⟩, by simp⟩
     · subst h; exact ⟨⟨rfl, hr1, rfl, hr2, rfl, rfl, rfl, by simp, by simp⟩, by simp⟩
     · split at h
       · subst h; exact ⟨⟨rfl, hr1, rfl, hr2, rfl, rfl, rfl, by simp, by simp⟩, by simp⟩
